@@ -21,6 +21,13 @@ pub mod mini;
 
 pub fn main() -> i32 {
     util::install_panic_hook();
+    let args: Vec<String> = std::env::args().collect();
+    if args.len() >= 3 && args[1] == "emit-corpus" {
+        let seed = std::env::var("VERIF_SEED").ok().and_then(|s| s.parse().ok()).unwrap_or(0);
+        let n = c05::emit_corpus(&args[2], 400, seed);
+        println!("{} corpus files written to {}", n, args[2]);
+        return 0;
+    }
     let mut checks: Vec<Box<dyn SubCheck>> = vec![];
     checks.extend(c01::checks());
     checks.extend(c02::checks());
